@@ -179,9 +179,14 @@ func (r *stateResolver) addAuthEvent(event PDU) {
 			r.resolvedJoinRules = event
 		}
 	case spec.MRoomMember:
-		r.resolvedMembers[spec.SenderID(*event.StateKey())] = event
+		// (an event of this type without a state key is not state)
+		if event.StateKey() != nil {
+			r.resolvedMembers[spec.SenderID(*event.StateKey())] = event
+		}
 	case spec.MRoomThirdPartyInvite:
-		r.resolvedThirdPartyInvites[*event.StateKey()] = event
+		if event.StateKey() != nil {
+			r.resolvedThirdPartyInvites[*event.StateKey()] = event
+		}
 	}
 }
 
